@@ -10,7 +10,9 @@ RULE = ("S->C: WalletMsg_Gen (TLC, exhaustive over version x message count {0,1,
         "(modes 0..255, bounce, amounts, comments up to 3000 bytes, bodies, state-init, workchain, sub-wallet / network id) through "
         "CreateMessageBody (Body events: request = message fields) and RawSend (Send events: request = raw cells; payload bytes captured "
         "from SendMessage; the library's VerifySignature / MessageV5VerifySignature / Decode* / ExtractRawMessages view of its own payload); "
-        "Flips events: every bit of the signed root cell and 64 sampled deeper bits changed one at a time with the library's verdict; the "
+        "wallet v5r1 bodies with extended actions (add / remove extension, signature auth; TLC cases none/1/2/3 actions x 0/1/3 messages x ext/int "
+        "and random lists) through walletV5R1.CreateSignedMsgBodyCell, judged as Body events and, wrapped into an external message as "
+        "RawSendV2 does, as Send events (in-place first action, reference chain, library's MessageV5 decoder returns the same list); Flips events: every bit of the signed root cell and 64 sampled deeper bits changed one at a time with the library's verdict; the "
         "captured wallet messages of the repository's tests as Fixture events. WalletMsg_Trace (TLC) judges every event: BoC parsed by "
         "Boc!Parse, external message and internal messages by block.tlb, body by the version's documented layout (Extract), "
         "EdVerify(pk, hash(SignedPart), sig) with pk re-derived from the seed, not under a second key, each flipped body no longer "
